@@ -42,9 +42,9 @@ func (chromeP ChromeCTPolicy) LogsByGroup(cert *x509.Certificate, approved *logl
 	switch m := lifetimeInMonths(cert); {
 	case m < 15:
 		incCount = 2
-	case m <= 27:
+	case !lifetimeExceedsMonths(cert, 27):
 		incCount = 3
-	case m <= 39:
+	case !lifetimeExceedsMonths(cert, 39):
 		incCount = 4
 	default:
 		incCount = 5
